@@ -212,6 +212,19 @@ pub struct World {
     pub value_offset: usize,
 }
 
+impl Drop for World {
+    /// Never run library code from here (thread-local destructors run at process exit, possibly
+    /// in the middle of an abandoned history): leak whatever handles are left.
+    fn drop(&mut self) {
+        for h in self.handles.drain(..) {
+            std::mem::forget(h);
+        }
+        for h in self.weaks.drain(..) {
+            std::mem::forget(h);
+        }
+    }
+}
+
 thread_local! {
     static WORLD: RefCell<World> = RefCell::new(World::new(Cfg{class: Class::Wf, check_links: true, check_mem: true, log_cap: 4096, hard_exit: false, light: false, sweep_every: 1}));
 }
@@ -712,21 +725,39 @@ impl World {
                 self.stats.nonrequired_destroyed += 1;
                 self.nonrequired_in_flight = true;
                 let reach = self.reachable();
-                if reach[id as usize] {
-                    // known-finding predicate (ELIDE only)
-                    let mut sig = None;
-                    if self.cfg.class == Class::Elide {
-                        if self.drop_stack.iter().any(|c| c.elide_pred.as_ref().map_or(false, |p| p.contains(&id))) {
-                            sig = Some("C13:stale-record-trusted-by-orphan-test".to_string());
+                let mut sig = None;
+                let mut dangling: Option<usize> = None;
+                if self.cfg.class == Class::Elide {
+                    // the set the documented algorithm collects when it trusts a stale record
+                    let pred: Option<Vec<ObjId>> = self
+                        .drop_stack
+                        .iter()
+                        .rev()
+                        .find_map(|c| c.elide_pred.as_ref().filter(|p| p.contains(&id)).cloned());
+                    if let Some(p) = &pred {
+                        sig = Some("C13:stale-record-trusted-by-orphan-test".to_string());
+                        if !reach[id as usize] {
+                            // a strong handle that survives outside the destroyed group dangles even
+                            // if its owner is currently unreachable (it is touched when that owner is
+                            // destroyed or revived through a Weak)
+                            for (oi, o) in self.objs.iter().enumerate() {
+                                // (owners that are themselves being destroyed still own their
+                                // remaining handles and will drop them in a moment)
+                                if matches!(o.state, St::Alive | St::Condemned | St::Dying) && !p.contains(&(oi as ObjId)) && count_of(&o.held, id) > 0 {
+                                    dangling = Some(oi);
+                                }
+                            }
                         }
                     }
+                }
+                if reach[id as usize] || dangling.is_some() {
                     let holders = self.describe_holders(id);
-                    self.viol_sig(
-                        "live",
-                        true,
-                        format!("#{} destroyed while reachable from program-held handles ({})", id, holders),
-                        sig,
-                    );
+                    let what = if reach[id as usize] {
+                        "reachable from program-held handles".to_string()
+                    } else {
+                        format!("a strong handle to it survives in #{} outside the destroyed group", dangling.unwrap())
+                    };
+                    self.viol_sig("live", true, format!("#{} destroyed while {} ({})", id, what, holders), sig);
                 }
                 self.purge_records(id);
             }
